@@ -1,5 +1,5 @@
 """Registry: property id -> check function(ctx) -> exit code."""
-from checks import tracker
+from checks import tracker, sshdfam
 
 
 def _tracker(prop):
@@ -12,3 +12,14 @@ def _tracker(prop):
 REGISTRY = {}
 for _p in ("C01", "C02", "C04", "C09", "C14", "C16"):
     REGISTRY[_p] = _tracker(_p)
+
+
+def _sshd(prop):
+    def f(ctx):
+        cov = sshdfam.run(ctx, prop)
+        return ctx.finish("exploration", cov, sshdfam.ASSUME)
+    return f
+
+
+for _p in ("C06", "C07", "C11", "C17", "C19"):
+    REGISTRY[_p] = _sshd(_p)
